@@ -36,9 +36,9 @@ func HTTPRequest(req *http.Request, client *http.Client) ro.Observable[*http.Res
 		ctx, cancel := context.WithCancel(req.Context())
 
 		go func() {
-			req = req.WithContext(ctx)
-
-			res, err := client.Do(req)
+			// Bind the cancelable context to a copy: `req` is shared by every
+			// subscription and must keep the context it was built with.
+			res, err := client.Do(req.WithContext(ctx))
 			if err != nil {
 				destination.ErrorWithContext(ctx, err)
 				return
